@@ -129,20 +129,35 @@ def run(ctx):
         ctx.ob(R, "reencode-first-index|%s" % n, not bad, "re-encoding any decoded value of %s yields a byte that decodes to the same value" % n, "src/encodings/mappings.rs", what="%s: inconsistent duplicate cells" % n, nontrivial=False)
     # 4. ASCII shortcut of text_string
     ts = F.fn("common_data_structures::text_string")
+    # Which bytes of the UTF-8 text can end up in the one-byte (PDFDocEncoding) form?  Start from all 256 and intersect
+    # with every test that dominates the literal return: `is_ascii()` restricts to 00-7F; a table-driven test over the bytes
+    # (a closure comparing PDF_DOC_ENCODING[b] with the byte) restricts to the bytes the table maps to themselves.
+    # A byte >= 0x80 in the admitted set is always wrong: it is part of a multi-byte UTF-8 sequence, not a character.
     short = [c for c in ts.calls if re.search(r"str::<impl str>::is_ascii$", c.fn or "")]
+    lit_blocks = [bi for bi, si, st in ts.stmts() if st.get("rv") and st["rv"]["k"] == "agg" and st["rv"]["kind"].get("var") == "Literal"]
     admitted = None
-    if short:
-        admitted = list(range(0x80))
-    else:
-        # a table-driven test: closure over bytes with PDF_DOC_ENCODING mentioned
-        for b in F.with_closures(ts):
-            for bi, si, s in b.stmts():
-                rv = s.get("rv")
-                if rv and "PDF_DOC_ENCODING" in b.rvname(rv, 4):
-                    admitted = [x for x in range(256) if tabs["PDF_DOC_ENCODING"][x] == x]
+    if lit_blocks:
+        adm = set(range(256))
+        constrained = False
+        for g, s2 in lib.taken_edges(ts, lit_blocks[0]):
+            t = ts.term(g)
+            if t["dty"] != "bool" or t["else"] != s2:
+                continue          # only conditions that must be TRUE to reach the literal form
+            for c in short:
+                if lib.switch_on(ts, g, c.dest["l"]):
+                    adm &= set(range(0x80))
+                    constrained = True
+            for c in ts.calls:
+                if re.search(r"Iterator::all$", c.fn or "") and lib.switch_on(ts, g, c.dest["l"]):
+                    cl = [b2 for b2 in F.closures_of(ts.path) if b2.path in (c.full or "") or b2.path in ts.oname(c.args[1], 3)]
+                    if cl and any("PDF_DOC_ENCODING" in b2.rvname(st["rv"], 4) for b2 in cl for _bi, _si, st in b2.stmts() if st.get("rv")):
+                        adm &= set(x for x in range(256) if tabs["PDF_DOC_ENCODING"][x] == x)
+                        constrained = True
+        if constrained:
+            admitted = sorted(adm)
     if admitted is None:
         raise AnchorLost("cannot read the condition under which text_string uses the PDFDocEncoding form")
-    bad = [x for x in admitted if tabs["PDF_DOC_ENCODING"][x] != x]
+    bad = [x for x in admitted if x >= 0x80 or tabs["PDF_DOC_ENCODING"][x] != x]
     ctx.ob(R, "ascii-shortcut-is-identity", not bad, "every byte the one-byte form admits is mapped to itself by PDF_DOC_ENCODING", ts.where(),
            what="text_string writes ASCII input as a PDFDocEncoding literal, but PDF_DOC_ENCODING does not map %d of the admitted bytes to themselves (%s): decode_text_string(text_string(\"a\\nb\\tc\")) == \"abc\""
                 % (len(bad), ",".join("%02X" % x for x in bad[:6]) + ("..." if len(bad) > 6 else "")))
